@@ -113,4 +113,38 @@ def targetsCustomB (tr : Nat → Option String) (body out : List Instr) : Bool :
 
 def sameSkeletonB (body out : List Instr) : Bool := out.map skeleton == body.map skeleton
 
+/-! ### One call and sequences of calls -/
+
+/-- What one resolution call has to achieve, by entry point: nothing but qubits/targets changes;
+targets are default-resolved or custom-resolved; qubits (ALL qubits of the body) likewise.
+"Fixed qubits / labels already used" always refers to `before`, the body as it stands before
+this call. -/
+def StepSpec (c : Call) (before after : List Instr) : Prop :=
+  SameSkeleton before after ∧
+  (match c.mode with
+   | .default | .customQubits => TargetsResolved before after
+   | .custom | .customTargets => TargetsCustom (fun k => lookupS k c.tmap) before after) ∧
+  (match c.mode with
+   | .default | .customTargets => QubitsResolved Instr.allQubits before after
+   | .custom | .customQubits => QubitsCustom Instr.allQubits (fun k => lookupN k c.qmap) before after)
+
+def stepSpecB (c : Call) (before after : List Instr) : Bool :=
+  sameSkeletonB before after &&
+  (match c.mode with
+   | .default | .customQubits => targetsResolvedB before after
+   | .custom | .customTargets => targetsCustomB (fun k => lookupS k c.tmap) before after) &&
+  (match c.mode with
+   | .default | .customTargets => qubitsResolvedB Instr.allQubits before after
+   | .custom | .customQubits => qubitsCustomB Instr.allQubits (fun k => lookupN k c.qmap) before after)
+
+/-- every call of a sequence meets its `StepSpec` relative to the body the previous call left -/
+def SeqSpec : List Call → List Instr → List (List Instr) → Prop
+  | [], _, outs => outs = []
+  | c :: cs, body, outs => ∃ out rest, outs = out :: rest ∧ StepSpec c body out ∧ SeqSpec cs out rest
+
+def seqSpecB : List Call → List Instr → List (List Instr) → Bool
+  | [], _, outs => outs.isEmpty
+  | c :: cs, body, out :: rest => stepSpecB c body out && seqSpecB cs out rest
+  | _ :: _, _, [] => false
+
 end QV.C34
